@@ -8,7 +8,7 @@
 From Coq Require Import List NArith Bool.
 From Scalibr Require Import Formats.Lines Formats.Apk Formats.ApkProofs Formats.Gradle Formats.GradleProofs
   Formats.Gemfile Formats.GemfileProofs Formats.Dpkg Formats.DpkgProofs Formats.Structs Formats.Structs2
-  Formats.Requirements Formats.RequirementsProofs.
+  Formats.Requirements Formats.RequirementsProofs Formats.GoModBytes Formats.GoModBytesProofs.
 Import ListNotations.
 Open Scope N_scope.
 
@@ -31,6 +31,10 @@ Print Assumptions dpkg_total.
 Theorem requirements_total : forall s : bytes, parse_requirements s <> Panic.
 Proof. exact requirements_total_lemma. Qed.
 Print Assumptions requirements_total.
+
+Theorem gomod_bytes_total : forall orc (s : bytes), parse_gomod_bytes orc s <> Panic.
+Proof. exact gomod_bytes_total_lemma. Qed.
+Print Assumptions gomod_bytes_total.
 
 (* non-vacuity: the panic helper is real (an index past the end is Panic), and the models do reject /
    survive malformed input in the modelled way *)
